@@ -39,7 +39,7 @@ def _pool_consts(reuse=True, sock=2, ln=2, dial=1, share=0, lend=0, faults=0, pr
 
 
 def pool_print_instances(thorough):
-    """(name, (consts, replace), harness conf) of the instances whose whole graph is printed and replayed."""
+    """(name, (consts, replace), harness conf) of the pool instances whose whole graph is printed and replayed."""
     u5 = {"unit_s": 5, "set_vars": True}
     out = [
         ("core", _pool_consts(sock=2, ln=2, dial=1), u5),
@@ -51,14 +51,50 @@ def pool_print_instances(thorough):
         # the package's own constants (30 s / 10 s), untouched
         ("prod", _pool_consts(sock=2, ln=1, dial=1, protos=("a",), addrs="AddrsA0", gc=3, unused=1), {"unit_s": 10, "set_vars": False}),
     ]
+    if thorough:
+        out += [
+            ("core3", _pool_consts(sock=3, ln=2, dial=1, share=1, addrs="AddrsGlobal"), u5),
+            ("uni2", _pool_consts(sock=3, ln=2, dial=1, protos=("a",), assocs=("x",), addrs="AddrsA0U0", uips=("u1",)), u5),
+            ("dial2", _pool_consts(sock=2, ln=1, dial=2, protos=("a",), addrs="AddrsA0U0", uips=("u1",), kinds=("tfd", "dq")), u5),
+            ("lend", _pool_consts(sock=3, ln=2, dial=1, lend=1, protos=("a",), addrs="AddrsGlobal", kinds=("tfd", "dq")), u5),
+            ("faults2", _pool_consts(sock=2, ln=2, dial=1, faults=2, protos=("a",), addrs="AddrsA1U1", uips=("u1",), kinds=("tfd", "dq")), u5),
+        ]
     return out
 
 
 def pool_mc_instances(thorough):
     """(name, (consts, replace)) of the exhaustive runs (all clauses, free interleaving of the two dial steps)."""
-    out = [("x-mixed", _pool_consts(sock=2, ln=2, dial=1, share=1, lend=1, faults=1, assocs=("x",), addrs="AddrsMixed", uips=("u1",), kinds=("tfd", "dq"))),
-           ("x-dial2", _pool_consts(sock=3, ln=2, dial=2, protos=("a",), assocs=("x",), addrs="AddrsA0U0", uips=("u1",))),
+    out = [("x-dial2", _pool_consts(sock=3, ln=2, dial=2, protos=("a",), assocs=("x",), addrs="AddrsA0U0", uips=("u1",))),
            ("x-single", _pool_consts(reuse=False, sock=3, ln=3, dial=2, share=1, faults=2, kinds=("tfd", "dq")))]
+    if thorough:
+        out += [("x-mixed", _pool_consts(sock=2, ln=2, dial=1, share=1, lend=1, faults=1, assocs=("x",), addrs="AddrsMixed", uips=("u1",), kinds=("tfd", "dq"))),
+                ("x-dial2-faults", _pool_consts(sock=2, ln=2, dial=2, share=1, lend=1, faults=1, addrs="AddrsGlobal", kinds=("tfd", "dq")))]
+    else:
+        out += [("x-mixed", _pool_consts(sock=2, ln=2, dial=1, share=0, lend=1, faults=1, protos=("a",), assocs=("x",), addrs="AddrsMixed", uips=("u1",), kinds=("tfd", "dq")))]
+    return out
+
+
+DEMUX_INV = "INVARIANTS TypeOK QueueConsistent ByAlpn QueueBound OneServer RunningIffOpen NoHandshakeWithoutListener"
+DEMUX_PROPS = "PROPERTIES FatesFinal AcceptByAlpn RefusedOnlyUnserved OverflowClosesNewcomer Fifo SiblingsSurvive CloseDrains"
+
+
+def _demux_consts(ln, conn, q, alpns=("a", "b", "z")):
+    return ({"MaxLn": ln, "MaxConn": conn, "QueueLen": q, "Alpns": S(*alpns)}, [])
+
+
+def demux_print_instances(thorough):
+    out = [("l2c3q1", _demux_consts(2, 3, 1), {"queueLen": 1, "scaled": True}),
+           ("l3c2q1", _demux_consts(3, 2, 1, ("a", "b")), {"queueLen": 1, "scaled": True})]
+    if thorough:
+        out += [("l3c3q1", _demux_consts(3, 3, 1), {"queueLen": 1, "scaled": True}),
+                ("l2c4q2", _demux_consts(2, 4, 2, ("a", "b")), {"queueLen": 2, "scaled": True})]
+    return out
+
+
+def demux_mc_instances(thorough):
+    out = [("dx-l3c4q2", _demux_consts(3, 4, 2))]
+    if thorough:
+        out.append(("dx-l3c5q2", _demux_consts(3, 5, 2)))
     return out
 
 
@@ -73,7 +109,8 @@ def _mc(args):
 
 def _reach(args):
     ctx, module, template, probe, (consts, rep), inv, props = args
-    cfg = tlc.subst_cfg(template, consts, replace=rep + [(inv, "INVARIANTS " + probe), (props, "")])
+    # (no VIEW: a probe may mention `op`, which the view leaves out)
+    cfg = tlc.subst_cfg(template, consts, replace=rep + [(inv, "INVARIANTS " + probe), (props, ""), ("VIEW View", "")])
     r = tlc.run(ctx, module, "gen_%s.cfg" % probe, cfg_text=cfg, workers=1, timeout=900, name=probe)
     if r.ok or r.violated != probe:
         raise MachineryError("vacuity guard: %s is not reachable in %s" % (probe, module))
@@ -121,26 +158,63 @@ def _pool_kinds(g):
     return k
 
 
-def _print_pool(args):
-    ctx, name, (consts, rep), conf, beh_dir = args
-    cfg = tlc.subst_cfg("C04qr_MC.cfg", consts, replace=rep + [
-        ("INIT Init", "INIT MCInit"), ("VIEW View", "VIEW View\nACTION_CONSTRAINT EmitSeq"), (POOL_PROPS, "")])
-    r = tlc.run(ctx, "C04qr_MC", "gen_p_%s.cfg" % name, cfg_text=cfg, workers=1, timeout=1500, name="pe" + name)
+def _demux_kinds(g):
+    k = {}
+
+    def inc(n):
+        k[n] = k.get(n, 0) + 1
+    for sk, op, tk in g.edges:
+        s = g.states[sk]
+        n = op["name"]
+        if n == "add":
+            inc("add-ok" if op["ok"] else "add-dup")
+            if op["ok"] and any(l["st"] == "closed" for l in s["lns"]):
+                inc("add-after-close")
+        elif n == "start":
+            inc("start-ok" if op["ok"] else "start-refused")
+        elif n == "finish":
+            inc("finish-" + op["fate"])
+        elif n == "close":
+            inc("close-again" if op["again"] else "close-last" if op["last"] else "close-sibling")
+            if op["drained"]:
+                inc("close-drains")
+            if op["refused"]:
+                inc("close-refuses-handshakes")
+            if not op["again"] and any(c["st"] == "hs" for c in s["conns"]):
+                inc("close-during-handshake")
+        else:
+            inc(n)
+    return k
+
+
+def _print(args):
+    ctx, part, name, (consts, rep), conf, beh_dir = args
+    if part == "pool":
+        module, template, props, constraint, max_len = "C04qr_MC", "C04qr_MC.cfg", POOL_PROPS, "EmitSeq", 30
+    else:
+        module, template, props, constraint, max_len = "C04qr_DemuxMC", "C04qr_DemuxMC.cfg", DEMUX_PROPS, "EmitEdge", 60
+    cfg = tlc.subst_cfg(template, consts, replace=rep + [
+        ("INIT Init", "INIT MCInit"), ("VIEW View", "VIEW View\nACTION_CONSTRAINT " + constraint), (props, "")])
+    r = tlc.run(ctx, module, "gen_p_%s.cfg" % name, cfg_text=cfg, workers=1, timeout=1500, name="pe" + name)
     if not r.ok:
-        raise MachineryError("design-level failure in C04qr_Pool %s: %s violated\n%s" % (name, r.violated, r.out[-2500:]))
+        raise MachineryError("design-level failure in %s %s: %s violated\n%s" % (module, name, r.violated, r.out[-2500:]))
     g = graph.Graph(r.inits, r.edges)
     if g.n_edges() == 0:
-        raise MachineryError("nothing printed for C04qr_Pool instance " + name)
-    walks = g.covering_walks(seed=ctx.seed, max_len=30)
+        raise MachineryError("nothing printed for %s instance %s" % (module, name))
+    walks = g.covering_walks(seed=ctx.seed, max_len=max_len)
     if getattr(g, "covered", g.n_edges()) < g.n_edges():
         raise MachineryError("covering walks of %s cover %d of %d edges" % (name, g.covered, g.n_edges()))
     hc = dict(conf)
-    hc.update({"reuse": consts["Reuse"] == "TRUE", "gcEvery": consts["GcEvery"], "maxUnused": consts["MaxUnused"]})
-    graph.write_behaviours(os.path.join(beh_dir, "pool-%s.jsonl" % name), walks,
+    if part == "pool":
+        hc.update({"reuse": consts["Reuse"] == "TRUE", "gcEvery": consts["GcEvery"], "maxUnused": consts["MaxUnused"]})
+    graph.write_behaviours(os.path.join(beh_dir, "%s-%s.jsonl" % (part, name)), walks,
                            {"name": name, "conf": hc, "edges": g.n_edges(), "states": g.n_states()})
-    return name, r.distinct, r.generated, g.n_states(), g.n_edges(), len(walks), sum(len(w["steps"]) for w in walks), _pool_kinds(g), r.wall
+    kinds = _pool_kinds(g) if part == "pool" else _demux_kinds(g)
+    return part, name, r.distinct, r.generated, g.n_states(), g.n_edges(), len(walks), sum(len(w["steps"]) for w in walks), kinds, r.wall
 
 
+DEMUX_NEED = ("add-ok", "add-dup", "add-after-close", "start-ok", "start-refused", "finish-queued", "finish-closed-full", "finish-closed-nolistener",
+              "accept", "close-again", "close-last", "close-sibling", "close-drains", "close-refuses-handshakes", "close-during-handshake")
 POOL_NEED = ("listen-ok", "listen-dup", "listen-inuse", "listen-oserr", "listen-listenfail", "listen-noalpn", "listen-shared",
              "listen-reuses-dialer", "closeln-again", "closeln-last", "closeln-sibling", "dialbegin", "dialbegin-routed", "dialend-ok",
              "dialend-dialfail", "dialend-oserr", "dial-new-socket", "dial-reuse-L", "dial-reuse-D", "dial-reuse-U", "release", "share",
@@ -161,6 +235,8 @@ def known_or_violation(ctx):
     ctx.violations[:] = keep
 
 
+# classes that end a walk (the real objects cannot follow the model any further): the transitions behind them stay unexecuted
+# while the finding is open, so the "every printed transition was executed" guard is relaxed by what the harness reports
 def run_part(ctx, thorough):
     t0 = time.time()
     marks = []
@@ -170,36 +246,61 @@ def run_part(ctx, thorough):
     tlc.stage(ctx)
     beh = ctx.sub("beh")
     pin, xin = pool_print_instances(thorough), pool_mc_instances(thorough)
-    with cf.ProcessPoolExecutor(max_workers=4) as pool:
-        fp = [pool.submit(_print_pool, (ctx, n, c, conf, beh)) for n, c, conf in pin]
+    din, dxin = demux_print_instances(thorough), demux_mc_instances(thorough)
+    probes = [("C04qr_MC", "C04qr_MC.cfg", p, _pool_consts(sock=2, ln=2, dial=1, lend=1, protos=("a",)), POOL_INV, POOL_PROPS)
+              for p in ("ReachGcClose", "ReachReuseDialer", "ReachLentDone")]
+    probes += [("C04qr_DemuxMC", "C04qr_DemuxMC.cfg", p, _demux_consts(3, 3, 1), DEMUX_INV, DEMUX_PROPS)
+               for p in ("ReachOverflow", "ReachOrphan", "ReachRefusedLate", "ReachHandover")]
+    with cf.ProcessPoolExecutor(max_workers=4) as pool, cf.ThreadPoolExecutor(max_workers=1) as tp:
+        fp = [pool.submit(_print, (ctx, "pool", n, c, conf, beh)) for n, c, conf in pin]
+        fp += [pool.submit(_print, (ctx, "demux", n, c, conf, beh)) for n, c, conf in din]
         fx = [pool.submit(_mc, (ctx, "C04qr_MC", "C04qr_MC.cfg", n, c, 1)) for n, c in xin]
+        fx += [pool.submit(_mc, (ctx, "C04qr_DemuxMC", "C04qr_DemuxMC.cfg", n, c, 1)) for n, c in dxin]
+        fg = [pool.submit(_reach, (ctx,) + p) for p in probes]
         pres = [f.result() for f in fp]
         mark("graphs")
+        # the Go side starts as soon as the graphs are there, next to what is left of the TLC lanes
+        fgo = tp.submit(goenv.run_harness, ctx, PKG, "^TestVerifC04qr$", inputs=beh, timeout=2400, parallel=4,
+                        env={"VERIF_C04QR_WORKERS": 4})
         xres = [f.result() for f in fx]
+        guards = [f.result() for f in fg]
         mark("tlc")
-    kinds = {}
+        res = fgo.result()
+        mark("go")
+    kinds = {"pool": {}, "demux": {}}
     for r in pres:
-        for k, v in r[7].items():
-            kinds[k] = kinds.get(k, 0) + v
-    for k in POOL_NEED:
-        if not kinds.get(k):
-            raise MachineryError("vacuity guard: no printed C04qr_Pool transition of kind %s" % k)
-    edges_total = sum(r[4] for r in pres)
-    res = goenv.run_harness(ctx, PKG, "^TestVerifC04qrPool$", inputs=beh, timeout=1500)
-    mark("go")
-    div = classify_mismatches(ctx, res, "pool")
-    states = sum(r[1] for r in xres) + sum(r[1] for r in pres)
-    trans = sum(r[2] for r in xres) + sum(r[2] for r in pres)
-    summary = ("pool: exhaustive %s; printed+replayed %s = %d transitions, %d walks, %d steps executed (%d distinct) on a real ConnManager; "
-               "extra %s; L2 divergences %d" % ([(r[0], r[1]) for r in xres], [(r[0], r[3], r[4]) for r in pres], edges_total,
-                                                sum(r[5] for r in pres), res["steps"], res["distinct"], res.get("extra"), div))
+        for k, v in r[8].items():
+            kinds[r[0]][k] = kinds[r[0]].get(k, 0) + v
+    for part, need in (("pool", POOL_NEED), ("demux", DEMUX_NEED)):
+        for k in need:
+            if not kinds[part].get(k):
+                raise MachineryError("vacuity guard: no printed %s transition of kind %s" % (part, k))
+    edges_total = sum(r[5] for r in pres)
+    if res["_rc"] != 0:
+        raise MachineryError("the C04qr harness failed:\n%s" % res["_log"][-3000:])
+    div = classify_mismatches(ctx, res, "replay")
+    ex = res.get("extra") or {}
+    skipped = ex.get("pool_steps_not_executed_after_violation", 0) + ex.get("demux_steps_not_executed_after_violation", 0)
+    if ex.get("pool_walks_not_matched_after_retries", 0) > max(2, len(pres)):
+        raise MachineryError("too many walks whose non-deterministic choices were never matched: %s" % ex)
+    if res["distinct"] + skipped < edges_total and not ctx.violations:
+        raise MachineryError("replay executed %d distinct transitions of %d (%d steps skipped after violations)" % (res["distinct"], edges_total, skipped))
+    if not ex.get("demux_production_queue_steps"):
+        raise MachineryError("the production-size queue scenario did not run")
+    states = sum(r[1] for r in xres) + sum(r[2] for r in pres)
+    trans = sum(r[2] for r in xres) + sum(r[3] for r in pres)
+    summary = ("exhaustive %s; printed+replayed %s = %d transitions, %d walks, %d steps executed (%d distinct transitions) on a real ConnManager; "
+               "harness counters %s; probes %s; L2 divergences %d"
+               % ([(r[0], r[1]) for r in xres], [(r[0] + ":" + r[1], r[4], r[5]) for r in pres], edges_total,
+                  sum(r[6] for r in pres), res["steps"], res["distinct"], ex, guards, div))
     log("C04qr: " + summary + " [" + ", ".join(marks) + "]")
     return {"summary": summary, "states": states, "transitions": trans, "replayed": res["replayed"],
             "samples": (res.get("samples") or [])[:2],
             "exhaustive_runs": {r[0]: {"states": r[1], "transitions": r[2], "wall_s": r[3]} for r in xres},
-            "replay_instances": {r[0]: {"states": r[3], "transitions": r[4], "walks": r[5], "steps": r[6]} for r in pres},
+            "replay_instances": {r[0] + ":" + r[1]: {"states": r[4], "transitions": r[5], "walks": r[6], "steps": r[7]} for r in pres},
             "replay_transition_kinds": kinds, "replay_distinct_transitions_executed": res["distinct"],
-            "replay_transitions_in_graphs": edges_total, "harness_extra": res.get("extra"), "divergences_L2": div}
+            "replay_transitions_in_graphs": edges_total, "replay_steps_executed": res["steps"], "harness_counters": ex,
+            "vacuity_probes": guards, "divergences_L2": div, "notes": ctx.notes[:10]}
 
 
 def run(ctx):
